@@ -34,6 +34,8 @@ struct TecmpRecipe
     uint16_t entries{0};
     Bytes extra;  // bytes appended after the payload (beyond payloadLength when consistent)
     int32_t cutAt{-1};  // truncate the whole frame
+    uint8_t useSerial{0};  // status payloads: 1 = take the serial number from `serial` instead of deriving it from the seed
+    uint32_t serial{0};
 
     void io(Ar& a)
     {
@@ -59,6 +61,8 @@ struct TecmpRecipe
         a.num("entries", entries);
         a.bytes("extra", extra);
         a.num("cutAt", cutAt);
+        a.optionalNum("useSerial", useSerial);
+        a.optionalNum("serial", serial);
     }
 
     Bytes payload() const
@@ -80,7 +84,7 @@ struct TecmpRecipe
                 g.cmType = static_cast<uint8_t>(mix(seed, 3));
                 g.vendorDataLength = 24;
                 g.deviceId = static_cast<uint16_t>(mix(seed, 4));
-                g.serial = (mix(seed, 20) & 1) ? mix(seed, 5) : (mix(seed, 5) & 0xFFFF);
+                g.serial = useSerial ? serial : ((mix(seed, 20) & 1) ? mix(seed, 5) : (mix(seed, 5) & 0xFFFF));
                 wire::TecmpCmVendor v;
                 v.swMajor = static_cast<uint8_t>(mix(seed, 6));
                 v.swMinor = static_cast<uint8_t>(mix(seed, 7));
@@ -108,7 +112,7 @@ struct TecmpRecipe
                 g.cmType = static_cast<uint8_t>(mix(seed, 3));
                 g.vendorDataLength = 0;
                 g.deviceId = static_cast<uint16_t>(mix(seed, 4));
-                g.serial = mix(seed, 5);
+                g.serial = useSerial ? serial : mix(seed, 5);
                 wire::putTecmpGeneric(p, g);
                 for (uint16_t i = 0; i < entries; ++i)
                 {
